@@ -17,7 +17,7 @@ def twins(v):
     return s, p
 
 
-def pipeline(ctx):
+def pipeline(ctx, fresh=True):
     if "res" in _memo:
         return _memo["res"]
     r = tlc_expect_ok(tlc("MC_Workflow", "MC_Workflow.cfg" if ctx.quick else "MC_Workflow_thorough.cfg", name="mc_workflow", workers=8, timeout=3000), "MC Workflow")
@@ -74,7 +74,7 @@ def pipeline(ctx):
     def one(chunk):
         if not chunk:
             return []
-        pr = vh(["wf-run"], stdin="\n".join(json.dumps({"id": x["id"], "ops": x["ops"]}) for x in chunk), timeout=20000)
+        pr = vh(["wf-run"] + ([] if fresh else ["--no-fresh"]), stdin="\n".join(json.dumps({"id": x["id"], "ops": x["ops"]}) for x in chunk), timeout=20000)
         return [json.loads(l) for l in pr.stdout.splitlines() if l.strip()]
     with cf.ThreadPoolExecutor(max_workers=nproc) as ex:
         parts = list(ex.map(one, chunks))
@@ -172,7 +172,8 @@ def report(ctx, prop, focus):
                         "formats, relationships and thumbnails are assigned by the harness from the history id (10 formats; tampered assets only in 6 formats with a safely flippable media byte)",
                         "reports are compared after renaming manifest labels by title and dropping UUIDs, instance ids, times, hashes and resource identifiers",
                         "signer ed25519 from fixture keys, async through an AsyncSigner wrapper on a current-thread tokio runtime"]
-    sample, findings, stats = pipeline(ctx)
+    # the fresh-process re-read of every asset is C38's question; the other three properties skip it
+    sample, findings, stats = pipeline(ctx, fresh=(prop == "C38"))
     for p, key, what, case in findings:
         if p == prop:
             ctx.violation(key, what, case)
